@@ -49,6 +49,28 @@ def c07(tier):
         # for later forms must not depend on the failed one
         q = tier == 'quick'
         mcov.update(mach.run(verdict, wd, [('fail', 12 if q else 250)], vlib.seed(), maxsteps=6000))
+        # repeated failures do not accumulate memory: the heap capacity after n and after 10 n consecutive failing
+        # evaluations (run-time errors at some depth, compile errors, user errors) is the same
+        import json, os
+        out = os.path.join(wd, 'failures.ndjson')
+        n = 3000 if q else 30000
+        p = vlib.harness(['garbage', 'n=%d' % n, 'lives=0,1000', 'every=1000000', 'maxev=0', 'kinds=failures', 'out=' + out],
+                         check=False, timeout=3000)
+        runs = []
+        if p.returncode == 0:
+            for l in open(out):
+                j = json.loads(l)
+                if j.get('ev') == 'run':
+                    runs.append({k: j[k] for k in ('livesize', 'n', 'cap_n', 'cap_10n', 'collections_n', 'collections_10n')})
+                    if j['cap_10n'] != j['cap_n']:
+                        verdict.violation(['C07/accumulation/heap-capacity'],
+                                          'heap capacity grows over consecutive failing evaluations: %d cells after %d failures, %d after %d '
+                                          '(live set %d)' % (j['cap_n'], j['n'], j['cap_10n'], 10 * j['n'], j['livesize']),
+                                          {'kind': 'failures-capacity', 'n': n, 'record': j})
+        else:
+            verdict.violation(['C07/accumulation/abort'], 'the harness died during a run of failing evaluations (rc=%s)' % p.returncode,
+                              {'kind': 'failures-capacity', 'n': n})
+        mcov['heap_capacity_over_consecutive_failures'] = runs
 
     return props.cek_property(
         'C07', tier, plan, relevant,
